@@ -213,15 +213,24 @@ def selftest():
     return a['eda'] is True and b['eda'] is False and c['eda'] is True
 
 
-def time_pump(rx_call, prefix, pump, suffix, ns=(14, 16, 18, 20)):
-    """replay: time the real compiled pattern on prefix + pump*n + suffix; exponential iff time at least ~doubles per step"""
+def time_pump(rx_call, prefix, pump, suffix, ns=None, stop_s=3.0):
+    """replay: time the real compiled pattern on prefix + pump*n + suffix for growing n; stops once a call takes > stop_s"""
     ts = []
-    for n in ns:
+    for n in (ns or range(2, 60, 2)):
         text = prefix + pump * n + suffix
         t0 = time.perf_counter()
         rx_call(text)
         dt = time.perf_counter() - t0
-        ts.append(dt)
-        if dt > 20:
+        ts.append((n, dt))
+        if dt > stop_s:
             break
     return ts
+
+
+def blows_up(ts, step=2, pump_len=1):
+    """exponential iff the time keeps multiplying by a constant factor per step once it is measurable"""
+    meas = [(n, t) for n, t in ts if t > 0.002]
+    if len(meas) < 3 or meas[-1][1] < 0.3:
+        return False
+    ratios = [meas[i + 1][1] / meas[i][1] for i in range(len(meas) - 1)]
+    return min(ratios[-2:]) >= 1.6
